@@ -14,7 +14,8 @@ CONSTANTS MaxDecls,     \* program length bound
           MaxNest,      \* scope depth up to which statement blocks may open (application = 1, endpoint = 2)
           TypesOnly,    \* TRUE: applications contain type declarations only (data models)
           WithPlans,    \* TRUE: also print file-partition plans for the finished program (C04)
-          Inplace       \* TRUE: tuples and tables may have fields whose type is written in place
+          Inplace,      \* TRUE: tuples and tables may have fields whose type is written in place
+          Collectors    \* TRUE: an application may have a collector (`.. * <- *:`) that marks endpoints and calls
 
 VARIABLES st, prog, done
 gvars == <<st, prog, done>>
@@ -105,6 +106,9 @@ Groups ==
          (IF Rich THEN {[k |-> "type", name |-> "Un", kind |-> "union", tags |-> <<>>, attrs |-> <<>>, pos |-> NoPos]} ELSE {}),
          (IF Rich THEN {[k |-> "alias", name |-> "Al", sh |-> sh, pos |-> NoPos] :
                                sh \in Pick({s \in Shapes(fr.app) : ~(s.p = "" /\ Len(s.ref) > 2) /\ ~s.opt /\ s.size = <<>>})} ELSE {}),
+         \* a collector, once per application (a second one replaces the first, which no document describes)
+         (IF Collectors /\ ~\E f \in st.model : f[1] = "ep" /\ f[2] = fr.app /\ f[3] = Coll
+            THEN {[k |-> "ep", name |-> Coll, long |-> "", params |-> <<>>, tags |-> <<>>, attrs |-> <<>>, pos |-> NoPos]} ELSE {}),
          {[k |-> "ep", name |-> e, long |-> "", params |-> ps, tags |-> tg, attrs |-> <<>>, pos |-> NoPos] :
                  e \in Pick(EpNames), tg \in Pick(TagSets),
                  ps \in Pick({<<>>} \cup {<<[n |-> "p", sh |-> sh, tags |-> <<>>]>> :
@@ -148,7 +152,14 @@ Groups ==
                                               sh |-> [p |-> tp, ref |-> <<>>, size |-> <<>>, opt |-> FALSE, wrap |-> ""]]>>] : tp \in {"int", "string"}}
             ELSE {}),
          {[k |-> "end"]} }
-    [] fr.k \in {"ep", "block"} ->
+    \* the entries of a collector: an endpoint of the application, or a call, with tags and the attribute `cid`
+    [] fr.k = "ep" /\ fr.ep = Coll ->
+       { {[k |-> "stmt", kind |-> "action", text |-> e, tags |-> tg, attrs |-> <<<<"cid", "on " \o e>>>>, pos |-> NoPos] :
+            e \in EpNames, tg \in Pick(TagSets)},
+         {[k |-> "stmt", kind |-> "call", app |-> a, ep |-> e, text |-> "", tags |-> tg, attrs |-> <<<<"cid", "to " \o a \o " " \o e>>>>, pos |-> NoPos] :
+            a \in Apps \ {fr.app}, e \in {"Ep", "Op"}, tg \in Pick(TagSets)},
+         (IF fr.own = 0 THEN {} ELSE {[k |-> "end"]}) }
+    [] fr.k \in {"ep", "block"} /\ ~(fr.k = "ep" /\ fr.ep = Coll) ->
        { {[k |-> "stmt", kind |-> "action", text |-> t, tags |-> <<>>, attrs |-> <<>>, pos |-> NoPos] : t \in Texts}
          \cup {[k |-> "stmt", kind |-> "call", app |-> a, ep |-> e, text |-> "", tags |-> <<>>, attrs |-> <<>>, pos |-> NoPos] :
                  a \in (Apps \ {fr.app}) \cup {"."}, e \in (IF CallsOnly THEN EpNames ELSE {"Ep", "Op"})}
